@@ -159,6 +159,58 @@ def _ipbl_case(rng, v4):
     elif k < 0.14: buf += bytes(rng.randrange(256) for _ in range(rng.randrange(1, iplen + 1)))
     return ip, buf
 
+TEXTCH = b'abcxyzABC0123456789.-_@:/'
+
+def _txt_line(rng):
+    r = rng.random()
+    w = bytes(rng.choice(TEXTCH) for _ in range(rng.choice([0, 1, 1, 2, 3, 5, 9])))
+    bl = lambda: bytes(rng.choice(b' \t') for _ in range(rng.randrange(1, 4)))
+    if r < 0.30: return w
+    if r < 0.40: return w + bl()                                  # trailing blanks
+    if r < 0.48: return b'#' + w + (bl() + w if rng.random() < 0.5 else b'')         # comment line (blanks inside are fine)
+    if r < 0.56: return w + b'#' + w                               # comment after an entry
+    if r < 0.62: return w + b'\\#' + w                            # escaped '#': stays in the entry, with the backslash
+    if r < 0.66: return w + b'\\\\#' + w
+    if r < 0.72: return w + bl() + b'#' + w                        # blank then comment: rejected
+    if r < 0.78: return w + bl() + w                               # inner blank: rejected (unless a word is empty)
+    if r < 0.82: return bl() + w                                   # leading blank
+    if r < 0.86: return bl()
+    if r < 0.90: return w + b'\0' + w                              # NUL ends a line too
+    if r < 0.94: return w + bytes([rng.choice([13, 11, 12, 92, 35, 128, 255])]) + w
+    return bytes(rng.choice(b'# \t\\a\0') for _ in range(rng.randrange(1, 7)))
+
+def _txt_file(rng):
+    if rng.random() < 0.04:
+        return b''
+    lines = [_txt_line(rng) for _ in range(rng.choice([1, 1, 2, 2, 3, 4, 6]))]
+    buf = b''
+    for i, l in enumerate(lines):
+        buf += l
+        if i + 1 < len(lines) or rng.random() < 0.7:
+            buf += b'\n' * rng.choice([1, 1, 1, 2])
+    return buf
+
+def _int_file(rng):
+    r = rng.random()
+    num = str(rng.choice([0, 1, 7, 42, 320, 32768, 4294967295, 4294967296, 18446744073709551615, 18446744073709551616,
+                          18446744073709551614, 99999999999999999999999, rng.randrange(10 ** rng.randrange(1, 22))])).encode()
+    if rng.random() < 0.1: num = b'0' * rng.randrange(1, 4) + num
+    bl = lambda: bytes(rng.choice(b' \t') for _ in range(rng.randrange(1, 3)))
+    if r < 0.22: return num + rng.choice([b'', b'\n', b'\n\n'])
+    if r < 0.32: return num + bl() + rng.choice([b'', b'\n'])
+    if r < 0.42: return b'#c' + bl() + b'x\n' + num + b'\n'            # comment line first (the unpatched code read 0)
+    if r < 0.48: return b'\n' + num + b'\n'                            # empty line first (the unpatched code read 0)
+    if r < 0.54: return num + b'\n#tail\n\n'
+    if r < 0.60: return num + b'\n' + num + b'\n'                       # two lines
+    if r < 0.66: return rng.choice([b'-', b'+']) + num + b'\n'           # sign
+    if r < 0.72: return num + rng.choice([b'x', b'.5', b'e3', b'#c', b'\\#']) + b'\n'
+    if r < 0.76: return bl() + num + b'\n'
+    if r < 0.80: return rng.choice([b'\r', b'\x0b', b'\x0c']) + num + b'\n'
+    if r < 0.84: return num + b'\r\n'
+    if r < 0.88: return rng.choice([b'', b'\n', b'#only\n', b' \n\t\n', b'\0'])
+    if r < 0.92: return num + b'\0' + num
+    return _txt_file(rng)
+
 def gen_cases(engine, rng, tier):
     mult = 1 if tier == 'quick' else 20
     out = []
@@ -178,6 +230,10 @@ def gen_cases(engine, rng, tier):
             out.append('bf %s %s %s' % (R.hx(ip), '01' if v4 else '00', R.hx(buf)))
         else:
             out.append('%s %s %s' % ('b4' if v4 else 'b6', R.hx(ip), R.hx(buf)))
+    for _ in range(700 * mult):
+        out.append('%s %s' % (rng.choice(['c4', 'c4', 'c4', 'c3', 'c3', 'c2', 'c1', 'c0', 'c6']), R.hx(_txt_file(rng))))
+    for _ in range(300 * mult):
+        out.append('c5 %s' % R.hx(_int_file(rng)))
     return out
 
 
